@@ -61,6 +61,8 @@ class Harness(cm.BaseB):
                         yield {"k": "opt", "src_trough": st, "dst_trough": dt, "mode": mode}
                         if st == dt:
                             yield {"k": "opt", "src_trough": st, "dst_trough": dt, "mode": mode, "same": True}
+                        if mode in ("auto", "source", "destination"):
+                            yield {"k": "opt", "src_trough": st, "dst_trough": dt, "mode": mode, "names": True}
             return
         if chunk["k"] == "long":
             # 8-12 triples: one side strictly ascending, the other a permutation family (reversed, rotated, pairs
@@ -170,6 +172,8 @@ class Harness(cm.BaseB):
     def one_opt(self, case):
         mode = None if isinstance(case["mode"], dict) else case["mode"]
         def mk(name, t, init):
+            if case.get("names"):
+                name = {"S": "Buffer{pos3}", "D": "plate {0} %s"}[name]  # braces / format characters in labware names
             if t == "generic":
                 return build_labware(dict(trough(name, 4, 2, 0, 100, [init, init]), generic=True))
             return build_labware(trough(name, 4, 2, 0, 100, init) if t else plate(name, 4, 2, 0, 100, init))
